@@ -158,6 +158,42 @@ pub fn run_all(ctx: &Ctx) {
     });
 }
 
+/// Bounded exhaustive schedule enumeration (C01's DFS) with the fair suffix appended at every state.
+fn schedules(ctx: &Ctx) {
+    let depth = ctx.sz(8, 11) as u32;
+    for v in VARIANTS {
+        for split in [1usize, 3] {
+            let counts = std::sync::Mutex::new((0u64, 0u64));
+            ctx.exhaustive(
+                &format!("schedules/{}/split{}", v.name(), split),
+                1,
+                |_| {
+                    let (mut st, mut tr) = (0, 0);
+                    fn leaf<P: Proto>(sim: &Sim<P>) -> Result<(), String> {
+                        deadline_check(sim).map_err(|f| format!("[{}] {}", f.oracle, f.msg))?;
+                        let mut s = sim.snapshot();
+                        match s.fair_suffix(FAIR_ROUNDS) {
+                            Ok(Some(_)) => Ok(()),
+                            Ok(None) => Err(format!("[liveness] {}: state not quiescent after {} fair rounds", P::NAME, FAIR_ROUNDS)),
+                            Err(f) => Err(format!("fair suffix: [{}] {}", f.oracle, f.msg)),
+                        }
+                    }
+                    let r = match v {
+                        Variant::V6Token => crate::c01_vital::explore::<P6>(false, 3, split, depth, &mut st, &mut tr, &mut leaf::<P6>),
+                        Variant::V6NoToken => crate::c01_vital::explore::<P6>(true, 3, split, depth, &mut st, &mut tr, &mut leaf::<P6>),
+                        Variant::V7 => crate::c01_vital::explore::<P7>(false, 3, split, depth, &mut st, &mut tr, &mut leaf::<P7>),
+                    };
+                    *counts.lock().unwrap() = (st, tr);
+                    r.map(|()| true)
+                },
+                |_| serde_json::json!({"scenario": "3 vital chunks, every deliver/drop/dup/tick schedule, fair suffix at every state", "split": split, "variant": v.name()}),
+            );
+            let (st, tr) = *counts.lock().unwrap();
+            ctx.extra(&format!("dfs_{}_split{}", v.name(), split), serde_json::json!({"states": st, "transitions": tr, "depth": depth}));
+        }
+    }
+}
+
 pub fn run(ctx: &Ctx) {
     ctx.set_rule(
         "adversarial prefix = C01-style history (sends of every accepted size incl. the largest, flush, tick, clock advance, \
@@ -168,4 +204,5 @@ pub fn run(ctx: &Ctx) {
     ctx.assume("bounded liveness under ONE fair scheduler (FIFO delivery, tick at the reported deadline); every callback burns fuel: a call that makes more than 50000 callback invocations is reported as non-terminating");
     ctx.assume("0.7 acceptor state PendingConnect reports no deadline; measured, not asserted (the connector retransmits)");
     run_all(ctx);
+    schedules(ctx);
 }
